@@ -57,8 +57,8 @@ CHECKS['C06'] = dict(
    design_ref='DESIGN.md 5 C06')
 
 CHECKS['C10'] = dict(
-   category='proof',
-   text='_should_regenerate, set_regeneration, the three reference writers and the seven assertion methods of the real '
+   category='other',
+   text='Mixed. Proved: _should_regenerate, set_regeneration, the three reference writers and the seven assertion methods of the real '
         'referencetest.py are executed symbolically against frame conditions taken from the property: in normal mode no write '
         'reaches the reference (only callees confined to tmp_dir may write), in regeneration mode exactly the resolved reference '
         'path(s) are written, the regeneration table is never written by an assertion, set_regeneration updates one key. '
@@ -93,8 +93,8 @@ CHECKS['C04'] = dict(
    technique='contract-based deductive verification of the comparison helpers + bounded runtime contracts against an independent oracle',
    design_ref='DESIGN.md 5 C04')
 CHECKS['C15'] = dict(
-   category='proof',
-   text='check_binary_file of the real checkfiles.py is proved (loop invariant: all bytes before the cursor agree) to report a failure '
+   category='other',
+   text='Mixed. check_binary_file of the real checkfiles.py is proved (loop invariant: all bytes before the cursor agree) to report a failure '
         'iff the byte strings differ, the least differing offset (or the shorter length) and exact lengths, and to write nothing itself; '
         'write_file is proved to write exactly the file it is given; add_failures is proved to write only under tmp_dir, nothing when '
         'temporaries are not requested, and exactly one raw file per side lacking a path plus the post-processed pair. The message/file '
